@@ -61,7 +61,10 @@ def cases(tier, seed):
     # has room to interact with previously painted solid (the only regime in which void touches can overlap solid)
     coarse = [((3, 3), (3, 3), 5), ((3, 4), (3, 3), 5), ((3, 4), (3, 3), 3)] + ([((4, 4), (3, 3), 5), ((3, 3), (4, 3), 5)] if tier == "thorough" else [])
     for (cp, cq), (up, uq), d in coarse:
-        for mask in ("distinct", "seed") + (("unit",) if tier == "thorough" else ()):
+        masks = ("distinct", "seed") + (("unit",) if tier == "thorough" else ())
+        if cp * cq > 12:
+            masks = ("distinct",)  # 2^16 coarse patterns: one mask keeps the thorough tier within budget
+        for mask in masks:
             nb = cp * cq
             for lo in range(0, 1 << nb, 512):
                 out.append(dict(p=cp * up, q=cq * uq, d=d, mask=mask, pos=2, bg="low", lo=lo, hi=min(1 << nb, lo + 512), rows=None, coarse=[cp, cq], seed=seed))
